@@ -1796,6 +1796,10 @@ def m_slice_last_mut(engine, st, fr, callee, args, ops):
     if isinstance(v, Adt) and v.ty == "Slice":
         a = v.fields[0]
         v = _deref_arg(engine, st, a)
+    if isinstance(v, Sym) and isinstance(a, Ref):
+        n = engine.len_of(st, a)
+        k = 0 if callee.endswith("first_mut") or callee.endswith("::first") else -1
+        return Fork([(n == 0, Adt("Option", "None", [])), (n != 0, Adt("Option", "Some", [Ref(a.root, a.path + (("index_c", k),), True)]))])
     if not isinstance(v, Arr):
         raise Unsupported("%s on %r" % (callee, v))
     if not v.items:
